@@ -180,6 +180,23 @@ Theorem C19_datetime_pos_value d p v :
 Proof. exact (dt_translate_position d p v). Qed.
 Print Assumptions C19_datetime_pos_value.
 
+(* the missing ("No Data") element may sit anywhere (first, in the middle, several of them): the
+   elements AFTER it keep their own ids - a position id is the element's "id" field, not its rank
+   among the non-missing elements - and int, digit-string and value spellings still agree *)
+Theorem C19_datetime_pos_value_after_missing pre m post p v :
+  dt_wf (pre ++ (m, DMissing) :: post) -> In (IInt p, DVal v) post ->
+  dt_translate (pre ++ (m, DMissing) :: post) (IInt p) = TId v /\
+  ((0 <= p)%Z -> dt_translate (pre ++ (m, DMissing) :: post) (IStr (dec p)) = TId v).
+Proof. exact (dt_translate_position_after_missing pre m post p v). Qed.
+Print Assumptions C19_datetime_pos_value_after_missing.
+
+(* conversely: what a reference is translated to (other than itself) is the value of the element
+   carrying exactly that id - never a neighbour's *)
+Theorem C19_datetime_own_element d x v :
+  dt_translate d x = TId v -> v <> x -> In (dt_key x, DVal v) d.
+Proof. exact (dt_translate_own_element d x v). Qed.
+Print Assumptions C19_datetime_own_element.
+
 Theorem C19_datetime_value_fixed d k v : dt_wf d -> In (k, DVal v) d -> dt_translate d v = TId v.
 Proof. exact (dt_translate_value d k v). Qed.
 Print Assumptions C19_datetime_value_fixed.
@@ -287,6 +304,26 @@ Proof. vm_compute. reflexivity. Qed.
 Example C19_position_needed :
   translate ex_dim (IInt 1) = Ok (IStr "A&B") /\ translate ex_dim (IStr "1") = Ok (IStr "A&B").
 Proof. vm_compute. split; reflexivity. Qed.
+
+(* missing elements first and in the middle: position 3 is "2010-02" (a crosswalk keyed by rank among
+   the non-missing elements would answer "2010-03"), position 4 is "2010-03" (by rank: nothing) *)
+Example C19_datetime_missing_middle_example :
+  let d := [(IInt 0, DMissing); (IInt 1, DVal (IStr "2010-01")); (IInt 2, DMissing);
+            (IInt 3, DVal (IStr "2010-02")); (IInt 4, DVal (IStr "2010-03"))] in
+  dt_wf d /\
+  dt_translate d (IInt 3) = TId (IStr "2010-02") /\ dt_translate d (IStr "3") = TId (IStr "2010-02") /\
+  dt_translate d (IInt 4) = TId (IStr "2010-03") /\ dt_translate d (IStr "4") = TId (IStr "2010-03") /\
+  dt_translate d (IInt 1) = TId (IStr "2010-01") /\
+  dt_translate d (IInt 0) = TId (IInt 0) /\ dt_translate d (IStr "2") = TId (IStr "2") /\
+  dt_replaced_ids d [IInt 4; IStr "3"; IStr "2010-01"; IInt 2] =
+    [TId (IStr "2010-03"); TId (IStr "2010-02"); TId (IStr "2010-01"); TId (IInt 2)].
+Proof.
+  cbv zeta. split.
+  - split; [repeat constructor; simpl; intuition discriminate|].
+    intros k v H. simpl in H. destruct H as [H|[H|[H|[H|[H|[]]]]]]; inversion H; subst; simpl;
+      intuition discriminate.
+  - vm_compute. repeat split; reflexivity.
+Qed.
 
 Example C19_datetime_example :
   let d := [(IInt 0, DVal (IStr "2010-01")); (IInt 1, DVal (IStr "2010-02")); (IInt 2, DMissing)] in
